@@ -158,7 +158,7 @@ def case(ctx, rng, idx, state):
 if __name__ == "__main__":
     harness.main(
         PROP, "exploration", case, setup_fn=setup,
-        tiers=dict(quick=dict(cases=24, shards=8, time=200), thorough=dict(cases=500, shards=16, time=1200)),
+        tiers=dict(quick=dict(cases=24, shards=8, time=900), thorough=dict(cases=500, shards=16, time=3000)),
         rule="system brought into one of 5 API histories first (as built / rvec.copy() / do_ws_dist on a random mesh / npz round trip / both); random Hermitian models with 2-6 WFs in 1-3 co-centred groups and any subset of Ham/AA/SS/BB/CC; random permutations (incl. group-"
              "separating ones), Haar-random unitaries inside each co-centred group (random phases on singletons), spin block<->interlace; 2-4 integrating "
              "calculators from a pool of 14 + Morb, a grid tabulator (energy, Berry curvature, velocity, orbital moment) and evaluate_k at 2 random k; "
